@@ -268,6 +268,9 @@ def ite(c, a, b):
         return a if c.value() else b
     if vkey(a) == vkey(b):
         return a
+    # canonical polarity: conditions are kept in their positive form (== rather than !=, x rather than !x)
+    if (c.op == 'cmp' and c.args[0] == '!=') or c.op == 'not':
+        c, a, b = b_not(c), b, a
     if isinstance(a, RF) and isinstance(b, RF):
         if a == b:
             return a
